@@ -91,6 +91,10 @@ def topology_params(topo):
             params[f"netmask_{nic}_{vm_name}"] = str(network.netmask)
             params[f"netdst_{nic}_{vm_name}"] = f"virbr{spec['subnet']}"
             params[f"range_{nic}_{vm_name}"] = "%d-%d" % tuple(subnet["range"])
+            if topo.get("with_gateway"):
+                # what moving a subnet to another address needs: a gateway inside the subnet and a guest type whose nic can be reconfigured (only windows guests are supported)
+                params[f"ip_provider_{nic}_{vm_name}"] = str(network.network_address + 1)
+                params["os_type"] = "windows"
     return params
 
 
